@@ -259,6 +259,17 @@ def run(verdict, exe, n_exec, seed, tag="trace", texts_per=3, calls_per=12):
             if pcfg[key]:
                 lines.append("failat %s %d" % (kind, pcfg[key]))
         lines.append("init c1 S %d" % flags)
+        nfile = [0]
+
+        def parse_cmd(text):
+            # the three entry points take turns: buffer, stream, file
+            r = rng.random()
+            if r < 0.6:
+                return ["parsebuf c1 %s" % enc(text)]
+            if r < 0.8:
+                return ["parsefp c1 %s" % enc(text)]
+            nfile[0] += 1
+            return ["fs file $R/t%d.conf %s" % (nfile[0], enc(text)), "parsefile c1 $R/t%d.conf" % nfile[0]]
         for _ in range(rng.randint(1, texts_per)):
             toks = gen_text(rng, schema, pcfg)
             try:
@@ -266,7 +277,7 @@ def run(verdict, exe, n_exec, seed, tag="trace", texts_per=3, calls_per=12):
             except ValueError:
                 continue
             steps.append(("Parse", toks))
-            lines.append("parsebuf c1 %s" % enc(text))
+            lines += parse_cmd(text)
         for _ in range(rng.randint(0, calls_per)):
             c = gen_call(rng, schema)
             steps.append(("Call", c))
@@ -276,7 +287,7 @@ def run(verdict, exe, n_exec, seed, tag="trace", texts_per=3, calls_per=12):
             try:
                 text = render_tokens(toks, rng, canonical=False)
                 steps.append(("Parse", toks))
-                lines.append("parsebuf c1 %s" % enc(text))
+                lines += parse_cmd(text)
             except ValueError:
                 pass
         if rng.random() < 0.6:
@@ -324,7 +335,10 @@ def run(verdict, exe, n_exec, seed, tag="trace", texts_per=3, calls_per=12):
                         cbs.append({"k": "valid", "o": c["o"], "v": "", "argv": [], "nvals": len(c["vals"])})
                 freed = ["ptr%d" % c["id"] for c in line["cb"] if c["k"] == "free"]
                 events.append({"e": "Parse", "toks": arg, "ret": line["ret"], "obs": obs, "ndiag": len(d), "cb": cbs, "freed": freed,
-                               "dfile": ("buf" if d and d[0]["file"] == "[buf]" else (d[0]["file"] if d else "")) or "",
+                               # the name the diagnostic must carry follows from the entry point: normalised to "buf"
+                               "dfile": ("buf" if d and d[0]["file"] == {"parsebuf": "[buf]", "parsefp": "FILE"}.get(
+                                   line["cmd"], (g["begin"].get("scratch") or "") + "/t%d.conf" % sum(1 for x in g["lines"][:g["lines"].index(line) + 1] if x["cmd"] == "parsefile"))
+                                         else (d[0]["file"] if d else "")) or "",
                                "dline": d[0]["line"] if d else 0})
             else:
                 okv, _ = OKRET.get(arg["op"], (0, -1))
